@@ -351,3 +351,145 @@ def rule_l_notify(la, res, f, cv_key, fields, rule="L-NOTIFY"):
                      "%s changes %s but a path reaches its exit without notifying %s"
                      % (f.name, key_str(a.key), key_str(cv_key)))
     return n
+
+
+# ---------------------------------------------------------------------------
+def _flag_cond(c):
+    """(local variable name, value the 'true' edge implies: True = non-zero / False = zero) or None"""
+    n = ir.strip(c)
+    neg = False
+    while isinstance(n, dict) and n.get("k") == "un" and n.get("op") == "!":
+        neg = not neg
+        n = ir.strip(n["e"])
+    if isinstance(n, dict) and n.get("k") == "bin" and n.get("op") in ("==", "!=") and \
+            (ir.is_const(n["l"], 0) or ir.is_const(n["r"], 0)):
+        x = ir.strip(n["r"] if ir.is_const(n["l"], 0) else n["l"])
+        if isinstance(x, dict) and x.get("k") == "var" and not x.get("pd"):
+            return x["n"], (n["op"] == "!=") != neg
+        return None
+    if isinstance(n, dict) and n.get("k") == "var" and not n.get("pd"):
+        return n["n"], not neg
+    return None
+
+
+def rule_hold_notify(la, res, f, cv_key, fields, mapped_enum="ChannelState_Mapped", rule="L-NOTIFY"):
+    """A reader operation that moves a hold cursor (a field the writer's wait
+    predicate reads) and then returns WITHOUT mapping the reader must itself
+    notify the writer: no channel_read_unmap - the operation that normally
+    announces released space - will follow, so a writer sleeping on the old hold
+    position is never woken.  From every such store, on every path to the exit:
+    a notify of the writer's condition variable, or the reader becomes Mapped
+    (its unmap notifies on every path, L-NOTIFY).  Local flags assigned
+    constants are followed (if (moved) notify;).  Registration (a callee that
+    grows the reader count) is exempt: a new reader can only shrink the free space."""
+    res.touched(f)
+    accs, _, _ = la.accesses(f)
+    evm = la.events(f)
+    n = 0
+
+    def registers(g):
+        if g is None:
+            return False
+        return any(k == ("channel", "holds.n") and m == "w" for (k, m) in la.effects(g))
+
+    def local_consts(s, env):
+        env = dict(env)
+        if s.get("k") == "decl" and isinstance(s.get("var"), dict) and not s["var"].get("pd"):
+            if "init" in s and isinstance(ir.strip(s["init"]), dict) and ir.strip(s["init"]).get("k") == "int":
+                env[s["var"]["n"]] = ir.strip(s["init"])["v"] != 0
+            else:
+                env.pop(s["var"]["n"], None)
+        for lv, op, rhs, w in ir.writes_of(s):
+            if lv.get("k") == "var" and not lv.get("pd"):
+                r0 = ir.strip(rhs) if isinstance(rhs, dict) else None
+                if op == "=" and isinstance(r0, dict) and r0.get("k") == "int":
+                    env[lv["n"]] = r0["v"] != 0
+                else:
+                    env.pop(lv["n"], None)
+        return env
+
+    def discharges(b, j):
+        for ev in evm[b][j]:
+            if ev[0] == "notify" and ev[1] == cv_key:
+                return "notify"
+            if ev[0] == "call" and ev[1]:
+                g = la.prog.resolve(ev[1], f)
+                if g is not None and g is not f and callee_must_notify(la, g, cv_key):
+                    return "notify (in %s)" % g.name
+        s = f.blocks[b].stmts[j]
+        for lv, op, rhs, w in ir.writes_of(s):
+            r0 = ir.strip(rhs) if isinstance(rhs, dict) else None
+            if lv.get("k") == "mem" and lv.get("f") == "state" and op == "=" and isinstance(r0, dict) and r0.get("e") == mapped_enum:
+                return "reader becomes Mapped"
+        return None
+
+    # the flags in force at the store: walk the unique-predecessor chain is not needed; constants
+    # assigned before the store on the same path are collected by a forward search from the entry
+    for a, held in accs:
+        if a.mode != "w" or not any(covers(a.key, r) for r in fields):
+            continue
+        if a.via and registers(la.prog.resolve(a.via, f)):
+            res.oblige(rule, "%s: store %s (registration in %s)" % (f.name, key_str(a.key), a.via), True,
+                       "exempt: registering a reader can only shrink the space the writer waits for", a.loc())
+            continue
+        def sets_error(st_):
+            for lv, op, rhs, w in ir.writes_of(st_):
+                r0 = ir.strip(rhs) if isinstance(rhs, dict) else None
+                if lv.get("k") == "mem" and lv.get("f") == "status" and op == "=" and isinstance(r0, dict) and r0.get("k") == "int" and r0.get("v") != 0:
+                    return True
+            return False
+        from . import paths as _paths
+        err_only, _ = _paths.all_paths_pass(f, "entry", {(a.block, a.idx)}, sets_error)
+        if err_only:
+            res.oblige(rule, "%s: store %s (error path)" % (f.name, key_str(a.key)), True,
+                       "exempt: reached only after the reader's error status was set (a reader that was mapped twice stays mapped, its unmap notifies; an overrun reader needs a broken cursor invariant, R-LIN OVF)", a.loc())
+            continue
+        n += 1
+        inst = "%s: store %s -> notify %s unless the reader is mapped" % (f.name, key_str(a.key), key_str(cv_key))
+        # DFS from just after the store, env = local flags with known truth value
+        start_env = {}
+        # flags assigned in the same block after the store are picked up by the scan below
+        stack = [(a.block, a.idx + 1, tuple(sorted(start_env.items())), (a.block,))]
+        seen = set()
+        bad = None
+        while stack and bad is None:
+            b, j0, envt, path = stack.pop()
+            if (b, j0, envt) in seen:
+                continue
+            seen.add((b, j0, envt))
+            env = dict(envt)
+            blk = f.blocks[b]
+            done = False
+            for j in range(j0, len(blk.stmts)):
+                if discharges(b, j):
+                    done = True
+                    break
+                env = local_consts(blk.stmts[j], env)
+            if done:
+                continue
+            if b == f.exit or not [s for s in blk.succs if s.get("to") is not None]:
+                bad = path
+                break
+            fc = _flag_cond(blk.cond_node()) if (blk.cond_node() is not None and len(blk.succs) == 2) else None
+            for su in blk.succs:
+                if su.get("to") is None:
+                    continue
+                env2 = env
+                if fc and su.get("label") in ("true", "false"):
+                    if fc[0] in env:
+                        truth = env[fc[0]] == fc[1]
+                        if (su["label"] == "true") != truth:
+                            continue
+                    else:
+                        # the branch itself tells the value on each edge (re-tested later: if (!n) ... if (moved && !n))
+                        env2 = dict(env)
+                        env2[fc[0]] = fc[1] if su["label"] == "true" else (not fc[1])
+                stack.append((su["to"], 0, tuple(sorted(env2.items())), path + (su["to"],)))
+        if bad is None:
+            res.oblige(rule, inst, True, "every path to the exit notifies or maps the reader", a.loc())
+        else:
+            res.fail(rule, inst, "%s|%s|%s|hold-moved-silently" % (rule, f.name, key_str(a.key)), a.loc(),
+                     "%s moves %s and can return without mapping the reader and without notifying %s: no unmap will follow, "
+                     "so a writer sleeping on the old hold position is never woken although its request may fit now"
+                     % (f.name, key_str(a.key), key_str(cv_key)), {"path_blocks": list(bad)})
+    return n
